@@ -1,6 +1,7 @@
 import Cirbo.Proofs.Connect
 import Cirbo.Proofs.ConnSem
 import Cirbo.Proofs.ConnFull
+import Cirbo.Proofs.ConnRight
 import Cirbo.Model.Wrappers
 /-!
 # C10 — Circuit composition computes the documented functional composition
@@ -10,7 +11,8 @@ import Cirbo.Model.Wrappers
 -- OBLIGATION: c10_left_connection_computes_the_composition
 -- OBLIGATION: c10_left_connection_interface_and_block
 -- OBLIGATION: c10_wrappers_are_connections
--- PARTIAL: proved for every left connection (connect_circuit(right_connect=False), connect_left, extend_circuit, add_circuit): (1) only gates are added and every base gate keeps its value under every assignment; (2) the attached gates compute the attached circuit's function of the values at the connectors (a renaming of the attached circuit's labels — connectors to the base gates they were identified with, other gates to their prefixed copies — turns every valuation of the result into a valuation of the attached circuit). (3) the exact inputs/outputs lists of the result (kept base interface minus connectors, then the attached circuit's unconnected inputs/outputs, renamed, in order), the block recording the attached circuit (its inputs/outputs are the attached circuit's, renamed) and the survival of older blocks (c10_left_connection_interface_and_block). Not yet proved: the right-connect direction and re-extraction of a block as a circuit. All of it is modelled one-to-one (Model/Mutate2.lean connStep/connFinish) and compared with the code field by field (both directions, wrappers, name/prefix options, repeated composition); the implementation's result is checked against the composed evaluation of the two operands on all assignments, against the documented interface, checkWFU and block extraction.
+-- OBLIGATION: c10_right_connection_computes_the_composition
+-- PARTIAL: proved for every left connection (connect_circuit(right_connect=False), connect_left, extend_circuit, add_circuit): (1) only gates are added and every base gate keeps its value under every assignment; (2) the attached gates compute the attached circuit's function of the values at the connectors (a renaming of the attached circuit's labels — connectors to the base gates they were identified with, other gates to their prefixed copies — turns every valuation of the result into a valuation of the attached circuit). (3) the exact inputs/outputs lists of the result (kept base interface minus connectors, then the attached circuit's unconnected inputs/outputs, renamed, in order), the block recording the attached circuit (its inputs/outputs are the attached circuit's, renamed) and the survival of older blocks (c10_left_connection_interface_and_block). The right direction (connect_circuit(right_connect=True), connect_right, connect_inputs, extend_circuit(right_connect=True)) is proved in the same form (c10_right_connection_computes_the_composition): the fed base inputs become the connector gates (same label, the connector's type and renamed operands), every other base gate is kept, so every valuation of the result satisfies the base circuit's gate equations and — read through the renaming — the attached circuit's; with the exact inputs/outputs lists, the recorded block and the survival of older blocks. Not yet proved: re-extraction of a block as a circuit. All of it is modelled one-to-one (Model/Mutate2.lean connStep/connFinish) and compared with the code field by field (both directions, wrappers, name/prefix options, repeated composition); the implementation's result is checked against the composed evaluation of the two operands on all assignments, against the documented interface, checkWFU and block extraction.
 -/
 namespace Cirbo
 open GateType Circuit
@@ -78,11 +80,35 @@ theorem c10_wrappers_are_connections (c other : Circuit) (thisC otherC : List La
     c.extendCircuit other none none true name addP = c.connectCircuit other c.inputs other.outputs true name addP :=
   ⟨rfl, rfl, rfl, rfl, rfl, rfl, rfl⟩
 
+/-- **right direction**: chosen base inputs are fed by gates of `other`. There is a renaming `φ` of
+`other`'s labels (connector ↦ the base input it feeds, any other gate ↦ its prefixed copy) such that
+every valuation `v` of the result is, through `φ`, a valuation of `other`, and satisfies every gate
+equation of the base (all base gates except the fed inputs are kept): the result computes the
+composition. The outputs are the base's minus `this_connectors` followed by `other`'s unconnected
+ones, the inputs are the base inputs that are still inputs followed by `other`'s unconnected ones;
+the named block records `other`'s interface; older blocks survive. -/
+theorem c10_right_connection_computes_the_composition {c other c' : Circuit} {thisC otherC : List Label}
+    {name : Label} {addP : Bool} (hwo : WFG other) (hndc : c.labels.Nodup)
+    (h : c.connectCircuit other thisC otherC true name addP = .ok c') :
+    ∃ φ : Label → Label,
+      (∀ b v, IsValB c' b v → IsValB other (v ∘ φ) (v ∘ φ)) ∧
+      (∀ b v, IsValB c' b v → IsValB c v v) ∧
+      (∀ l x, Dict.get? (connMapping thisC otherC) l = some x → φ l = x) ∧
+      (∀ g ∈ other.gates, Dict.contains (connMapping thisC otherC) g.label = false → φ g.label = connPre name addP ++ g.label) ∧
+      (∀ g ∈ c.gates, g.label ∉ thisC → g ∈ c'.gates) ∧
+      c'.outputs = c.outputs.filter (fun o => !thisC.contains o) ++ (other.outputs.filter (fun o => !otherC.contains o)).map φ ∧
+      c'.inputs = c.inputs.filter (fun i => ((c'.find? i).map (·.ty)) == some INPUT) ++
+        (other.inputs.filter (fun i => !otherC.contains i)).map φ ∧
+      (name ≠ "" → ∃ fb, c'.getBlock name = .ok ⟨name, other.inputs.map φ, fb, other.outputs.map φ⟩) ∧
+      (∀ n b, n ≠ name → c.getBlock n = .ok b → c'.getBlock n = .ok b) :=
+  connect_right_semantics hwo hndc h
+
 #print axioms c10_frame_add_gate
 #print axioms c10_left_connection_keeps_base_function
 #print axioms c10_left_connection_computes_the_composition
 
 #print axioms c10_left_connection_interface_and_block
 #print axioms c10_wrappers_are_connections
+#print axioms c10_right_connection_computes_the_composition
 
 end Cirbo
